@@ -95,6 +95,12 @@ def run_runner_case(case: dict[str, Any]) -> dict[str, Any]:
 
                     @context_teardown
                     async def resource_scope(_r: dict[str, Any] = r) -> Any:
+                        if _r["id"] % 2:
+                            # what the function sets up before it yields (and registers a teardown callback for) was
+                            # registered before the part after the yield was
+                            inner = {"id": _r["id"] + 500, "pass": False, "async": False}
+                            add_teardown_callback(make_cb(inner))
+                            log.append(["reg", inner["id"], False])
                         exc = yield
                         make_cb({**_r, "async": False})(exc)
 
